@@ -160,12 +160,12 @@ def run_session(job):
             raised, res = '', None
             try:
                 res = perform(alg, regs, call, args)
-                rec.log('Return')
+                rec.log('Return', cfg=I.config_changed(alg))
             except _Timeout:
                 raise
             except Exception as e:   # noqa: BLE001
                 raised = type(e).__name__
-                rec.log('Raise', exc=raised)
+                rec.log('Raise', exc=raised, cfg=I.config_changed(alg))
                 for st in rec.gen_stack.values():
                     st.clear()
             after = [snap(m) for m in watched]
@@ -398,12 +398,12 @@ def run_threaded_session(job):
                 raised, res = '', None
                 try:
                     res = perform(alg, regs, call, args)
-                    rec.log('Return')
+                    rec.log('Return', cfg=I.config_changed(alg))
                 except RuntimeError:
                     raise
                 except Exception as e:   # noqa: BLE001
                     raised = type(e).__name__
-                    rec.log('Raise', exc=raised)
+                    rec.log('Raise', exc=raised, cfg=I.config_changed(alg))
                     rec.gen_stack.get(name, []).clear()
                 results[name].append((ci, call, args, before, raised, res))
         finally:
